@@ -210,8 +210,16 @@ def py_side(repo):
                         for x in import_time([h for h in sub if isinstance(h, ast.stmt)] + [s2 for h in sub if isinstance(h, ast.ExceptHandler) for s2 in h.body]):
                             yield x
         live = set(id(n) for n in import_time(tree.body))
+        # ctypes keeps argtypes/restype per library HANDLE: when the module binds its global `lsci` again (a second
+        # load_libscientific_library()), the wrappers — which run after the import — call through the LAST handle, and the
+        # declarations made on an earlier handle are not in force
+        rebinds = [st.lineno for st in import_time(tree.body) if isinstance(st, ast.Assign) and any(isinstance(t_, ast.Name) and t_.id == "lsci" for t_ in st.targets)]
+        last_bind = max(rebinds) if rebinds else 0
         for node in ast.walk(tree):
             if isinstance(node, ast.Assign) and id(node) not in live and not any(isinstance(t_, ast.Name) and t_.id == "_fields_" for t_ in node.targets):
+                continue
+            if isinstance(node, ast.Assign) and len(node.targets) == 1 and isinstance(node.targets[0], ast.Attribute) and node.targets[0].attr in ("argtypes", "restype") \
+                    and getattr(node, "lineno", 0) < last_bind:
                 continue
             if isinstance(node, ast.ClassDef) and any((isinstance(b, ast.Attribute) and b.attr == "Structure") or (isinstance(b, ast.Name) and b.id == "Structure") for b in node.bases):
                 for st in node.body:
